@@ -1031,3 +1031,86 @@ def simulate_idwrap(wrap, conf='mixp'):
     p.wait()
     err = open(errpath).read(); os.unlink(errpath)
     return dict(seed=0, conf=conf, dump=dump, ops=sent, couts=couts, xs=xsl, stats=collections.Counter(), died=died, stderr=err[-4000:], rc=p.returncode, teardown=None, wrap=wrap)
+
+
+# ---------------------------------------------------------------------------------------------------------------
+# `powermand --stdio`: one client on two descriptors (input 1000, output 1001), no listener; the daemon leaves its loop when that
+# client is destroyed.  Non-adaptive schedule; the run ends with the daemon's own teardown.
+
+STDIO_IN, STDIO_OUT = 1000, 1001
+STDIO_CMDS = [b'help', b'nodes', b'device', b'version', b'telemetry', b'exprange', b'status t1', b'status', b'on u[0-1]', b'bogus', b'client x']
+
+
+def stdio_schedule(seed, N, faults=0.0):
+    """ops of one run; `clean` = no fault was injected (then the only way the client ends is its own `quit`)"""
+    rng = random.Random(seed * 7919 + 17)
+    ops = ["I 0 0 0"]; clean = True; now = 0
+    quit_at = rng.randrange(2, max(3, N))
+    # requests that need a device stay "in progress" unless the device answers (it does not in this schedule): one run in four has them
+    cmds = STDIO_CMDS if rng.random() < 0.25 else [c for c in STDIO_CMDS if not (c.startswith(b'status') or c.startswith(b'on '))]
+    for i in range(N + 40):
+        now += rng.choice([100, 1000, 1000, 20000])
+        evs = []
+        # input
+        if i == quit_at or (i > quit_at and i % 8 == 0):
+            # a burst of requests in one read, the last of them `quit`: everything they produce is queued when the client goes
+            lines = [rng.choice(STDIO_CMDS[:6]) for _ in range(rng.choice([0, 1, 5, 20, 60]))] + [b'quit']
+            data = b''.join(l + rng.choice([b'\n', b'\r\n']) for l in lines)[:4000]
+            evs.append("%d:1:0:%s:0" % (STDIO_IN, hx(data)))
+        elif i < quit_at and rng.random() < 0.6:
+            lines = [rng.choice(cmds) for _ in range(rng.choice([1, 1, 2, 8]))]
+            data = b''.join(l + rng.choice([b'\n', b'\r\n']) for l in lines)
+            if rng.random() < 0.2: data = data[:rng.randrange(1, len(data) + 1)]     # a request split across reads
+            evs.append("%d:1:0:%s:0" % (STDIO_IN, hx(data)))
+        elif rng.random() < faults:
+            clean = False
+            evs.append("%d:%d:%d:-:0" % (STDIO_IN, rng.choice([1, 4, 8, 16, 5]), rng.choice([0, 1, 2])))
+        # output: the reader is slower than the daemon most of the time
+        r = rng.random()
+        if r < faults / 2:
+            clean = False
+            evs.append("%d:%d:0:-:%d" % (STDIO_OUT, rng.choice([4, 8, 16, 2, 6]), rng.choice([-1, 0])))
+        else:
+            # the capacity is stated in every pass (the final flush of `quit` writes whether or not poll reported room)
+            cap = rng.choice([0, 1, 7, 64, 300, 1024, 4096, 65536, 1 << 20])
+            evs.append("%d:%d:0:-:%d" % (STDIO_OUT, 2 if (r < 0.85 and cap > 0) else 0, cap))
+        ops.append("P %d 0 0 0 %s" % (now, " ".join(evs)))
+    return ops, clean
+
+
+def simulate_stdio(seed, N, faults=0.0, fixed_ops=None):
+    binary = build()
+    cpath = conf_path('mixp')
+    errpath = os.path.join(tree_dir(), 'udmn.err.stdio.%d.%d' % (os.getpid(), seed))
+    p = subprocess.Popen([binary, cpath, 'stdio'], stdin=subprocess.PIPE, stdout=subprocess.PIPE, stderr=open(errpath, 'w'), bufsize=0,
+                         env=dict(ASAN_ENV, ASAN_OPTIONS=ASAN_ENV['ASAN_OPTIONS'].replace('detect_leaks=0', 'detect_leaks=1')))
+    rd = _Lines(p.stdout); dump = []
+    while True:
+        l = rd.readline(60.0)
+        if l is None or (l == '' and rd.eof):
+            raise BuildError('daemon harness (stdio) died while reading its configuration: ' + open(errpath).read()[-1500:])
+        if l == "READY": break
+        dump.append(l)
+    if fixed_ops is not None: ops, clean = fixed_ops, False
+    else: ops, clean = stdio_schedule(seed, N, faults)
+    couts = []; xsl = []; sent = []; died = False; done = False
+    for op in ops:
+        try: p.stdin.write((op + "\n").encode())
+        except (BrokenPipeError, OSError): died = True; break
+        res = []
+        while True:
+            l = rd.readline(90.0)
+            if l is None: p.kill(); res.append("DIED"); break
+            if l == '' and rd.eof: res.append("DIED"); break
+            if l == ".": break
+            res.append(l)
+        sent.append(op); xsl.append([l for l in res if l.startswith("X ")]); couts.append([l for l in res if not l.startswith("X ")])
+        if "DIED" in res: died = True; break
+        if "O teardown" in res: done = True; break
+    try: p.stdin.close()
+    except Exception: pass
+    p.wait()
+    err = open(errpath).read(); os.unlink(errpath)
+    if done and p.returncode != 0: died = True; couts[-1].append("DIED")      # e.g. the leak check at exit
+    return dict(seed=seed, conf='mixp', dump=dump, ops=sent, couts=couts, xs=xsl, stats=collections.Counter(), died=died, stderr=err[-4000:],
+                rc=p.returncode, teardown=None, done=done, clean=clean, N=N, faults=faults)
